@@ -201,3 +201,41 @@ def _walk_same_function(node):
             continue
         for x in _walk_same_function(c):
             yield x
+
+
+def own_iterable_reads(tree):
+    """{position of a read: name} for reads of a comprehension variable located inside the iterable of the very generator
+    that binds it (`... for c in f(c)`): from the second trip on CPython finds the previous trip's value there."""
+    out = {}
+    for node in ast.walk(tree):
+        if isinstance(node, (ast.ListComp, ast.SetComp, ast.DictComp, ast.GeneratorExp)):
+            for i, g in enumerate(node.generators):
+                if i == 0:
+                    continue          # the first iterable is evaluated outside the comprehension, once
+                tnames = {n.id for n in ast.walk(g.target) if isinstance(n, ast.Name)}
+                for n in ast.walk(g.iter):
+                    if isinstance(n, ast.Name) and isinstance(n.ctx, ast.Load) and n.id in tnames:
+                        out[(n.lineno, n.col_offset)] = n.id
+    return out
+
+
+def star_before_keyword_walrus(tree):
+    """{position of a read inside a *args argument: names} where a keyword argument written BEFORE it in the same call
+    contains a walrus binding that name: CPython evaluates *args before the keyword values."""
+    out = {}
+    for node in ast.walk(tree):
+        if isinstance(node, ast.Call):
+            for a in node.args:
+                if isinstance(a, ast.Starred):
+                    apos = (a.lineno, a.col_offset)
+                    bound = set()
+                    for k in node.keywords:
+                        if (k.value.lineno, k.value.col_offset) < apos:
+                            for n in ast.walk(k.value):
+                                if isinstance(n, ast.NamedExpr):
+                                    bound.add(n.target.id)
+                    if bound:
+                        for n in ast.walk(a):
+                            if isinstance(n, ast.Name) and isinstance(n.ctx, ast.Load) and n.id in bound:
+                                out[(n.lineno, n.col_offset)] = n.id
+    return out
